@@ -100,14 +100,19 @@ def handover_histories(maxlen=5):
                     yield text, seq
 
 
-def run_handover(ctx, oracles, maxlen=5):
+def run_handover(ctx, oracles, maxlen=5, lfs=(None, 3, 4)):
+    """(every history also with the store cut into blocks of 3-5 tokens: the re-spliced stretches straddle block boundaries)"""
     for text, ops in handover_histories(maxlen):
+      for lf in lfs:
+        if hasattr(ctx, 'current'):
+            ctx.current({'text': text, 'auto_claim': False, 'ops': ops, 'oracles': list(oracles), 'lf': lf})
         try:
-            fails, outcomes = session.run_history(text, False, ops, list(oracles))
+            fails, outcomes = session.run_history(text, False, ops, list(oracles), lf=lf)
         except Exception as e:
             fails, outcomes = [(f'claim-history-raises:{type(e).__name__}', repr(e)[:200])], []
-        ctx.case(('handover', text[:24], tuple((o['m'], tuple(o['path'][-2:])) for o in ops), tuple(x[-1] if x[0] == 'exc' else 'ok' for x in outcomes)))
+        ctx.case(('handover', text[:24], tuple((o['m'], tuple(o['path'][-2:])) for o in ops), tuple(x[-1] if x[0] == 'exc' else 'ok' for x in outcomes), lf))
         ctx.count('handover:len%d' % len(ops))
         if fails:
             sig, what = fails[0]
-            ctx.oracle_fail(sig, what, {'text': text, 'auto_claim': False, 'ops': ops, 'oracles': list(oracles)})
+            ctx.oracle_fail(sig, what, {'text': text, 'auto_claim': False, 'ops': ops, 'oracles': list(oracles), 'lf': lf})
+            break
